@@ -1,7 +1,10 @@
 use std::{borrow::Cow, io};
 
 use crate::{
-    codecs::rans_nx16::decode::{order_0, split_off},
+    codecs::{
+        alloc_zeroed,
+        rans_nx16::decode::{order_0, split_off},
+    },
     io::reader::num::{read_uint7, read_uint7_as},
 };
 
@@ -49,7 +52,7 @@ fn read_src<'a>(
         let compressed_size = read_uint7_as(src)?;
         let mut buf = split_off(src, compressed_size)?;
 
-        let mut dst = vec![0; len];
+        let mut dst = alloc_zeroed(len)?;
         order_0::decode(&mut buf, &mut dst, state_count)?;
         Ok(Cow::from(dst))
     } else {
